@@ -200,6 +200,20 @@ fn main() {
             check_case(l, mu.cfg, &map, &setts, &|| format!("cfg={:?}\nspec={}\n--- .osu ---\n{}", mu.cfg, spec.describe(), spec.text()));
         });
     }
+    // native mania with a fractional key count (CircleSize x.5: every calculator has to round it the same way)
+    {
+        let cfg = ModeCfg { src: 3, dst: 3 };
+        let alpha = Alphabet::product(&[Kind::Circle, Kind::Hold(100)], &[0, 150], &[PosK::Same], &[0], &[0, 1, 2]);
+        let n_max = 3u32;
+        let per = alpha.count_upto(n_max);
+        let keys = [4u8, 5, 6, 7];
+        let setts = [Setting::nm(), Setting::bits(settings::DT)];
+        ctx.universe("mania-half-keys/3to3/N<=3", per * keys.len() as u64, |idx, l| {
+            let spec = MapSpec { keys: keys[(idx / per) as usize], cs_tenths: 5, ..MapSpec::new(3, alpha.seq(idx % per, n_max)) };
+            let map = spec.decode();
+            check_case(l, cfg, &map, &setts, &|| format!("cfg={cfg:?}\nspec={}\n--- .osu ---\n{}", spec.describe(), spec.text()));
+        });
+    }
     // one long object followed by a stream of 8 circles that either overlaps it in time or follows it
     for cfg in MODE_CFGS.iter().filter(|c| c.src != 3) {
         let kinds = [Kind::Slider5, Kind::SliderLong, Kind::Slider2, Kind::Spinner(600), Kind::Circle];
